@@ -66,7 +66,12 @@ def post_getitem(ctx, call):
         ctx.note(("oracle_bug", repr(index)[:80]))
         return
     simple = isinstance(index, (int, np.integer))
+    # what the frozen model of the pinned (known-defective) bookkeeping yields for this expression: used by the known-finding classifiers only
+    from .c19_known import frozen_types
+
+    frozen = frozen_types(index, self.shape, set(self._covariant_indices), set(self._contravariant_indices))
     if call.exc is not None:
+        feat["matches_frozen_model"] = isinstance(frozen, str) and frozen == type(call.exc).__name__
         ctx.judge("getitem", False, [self, _idx_desc(index)], what=f"{call.name} raised {type(call.exc).__name__}: {call.exc} for an index numpy accepts", feat=feat,
                   op="__getitem__", nontrivial=not simple)
         return
@@ -87,6 +92,8 @@ def post_getitem(ctx, call):
         if s:
             ok, why = False, s
     ctx.note(("getitem_class", type(self).__name__))
+    if not ok:
+        feat["matches_frozen_model"] = (not isinstance(frozen, str)) and tuple(frozen) == _types_of(res)
     ctx.judge("getitem", ok, [self, _idx_desc(index)], what=why, feat=feat, op="__getitem__", nontrivial=not simple, expected=[cov, con], observed=_types_of(res))
 
 
@@ -647,9 +654,15 @@ def _is_getitem(rec):
     return rec["monitor"] == "getitem" and not rec["what"].startswith("values differ")
 
 
+def _frozen(rec, feat):
+    """The observed wrong index types / exception are exactly those of the frozen model of the pinned bookkeeping (c19_known.py), or the
+    failure is a follow-up of them (a subclass re-wrap raising on a tensor whose index types the base class got wrong)."""
+    return bool(feat.get("matches_frozen_model")) or (feat.get("level") != "Tensor.__getitem__" and " raised " in rec["what"])
+
+
 def k1_int_with_array(rec, feat):
     """An integer index in the same expression as an integer/boolean array index."""
-    return _is_getitem(rec) and bool(feat.get("int_with_array"))
+    return _is_getitem(rec) and bool(feat.get("int_with_array")) and _frozen(rec, feat)
 
 
 def k3_separated_arrays(rec, feat):
@@ -658,7 +671,7 @@ def k3_separated_arrays(rec, feat):
     does not see the empty Ellipsis as a separator.  Separated array indices without None and without an empty Ellipsis are handled
     correctly by the library and are therefore NOT covered by this finding."""
     return (_is_getitem(rec) and bool(feat.get("separated")) and not feat.get("int_with_array")
-            and (feat.get("n_none", 0) > 0 or bool(feat.get("zero_width_ellipsis"))))
+            and (feat.get("n_none", 0) > 0 or bool(feat.get("zero_width_ellipsis"))) and _frozen(rec, feat))
 
 
 def k4_ellipsis_with_ndmask(rec, feat):
